@@ -248,6 +248,7 @@ pub fn run_one(opts: RunOpts) -> RunResult {
         stall_pct,
         cooperative: false,
         aged: None,
+        same_process_probes: 0,
         part_weight: *rng.pick(&[25u64, 25, 3]),
         target: opts.target.clone(),
         rng: Rng::new(mix(opts.seed, 77)),
@@ -262,7 +263,7 @@ pub fn run_one(opts: RunOpts) -> RunResult {
     let local_pk = plan.local_pk;
     let mut sched_rng = Rng::new(mix(opts.seed, 99));
     let mut lifetimes = 0;
-    let mut probes_left = if plan.cfg.probe { 3 } else { 0 };
+    let mut probes_left = if plan.cfg.probe && !plan.cfg.probe_same_process { 3 } else { 0 };
     let mut probe_phase = false;
     loop {
         lifetimes += 1;
@@ -323,8 +324,15 @@ pub fn run_one(opts: RunOpts) -> RunResult {
                 if capped {
                     break;
                 }
-                if probes_left > 0 && w.violations.is_empty() {
-                    // C09: restart, then a fresh fully funded probe set for every hash
+                if probes_left > 0 && !w.target_violated() {
+                    // C09: restart, then a fresh fully funded probe set for every hash.
+                    // "An arbitrary later retry": in aged mode the wall clock has moved on
+                    // by more than the MPP timeout since the interrupted attempt.
+                    if let Some(a) = w.cfg.probe_age_secs {
+                        if w.age_pending_records(a) {
+                            w.ev(|| format!("AGED stored pending records by {a}s before the probe"));
+                        }
+                    }
                     let done = crate::probe::add_probe(&mut w, 3 - probes_left);
                     probes_left -= 1;
                     if done {
@@ -341,7 +349,7 @@ pub fn run_one(opts: RunOpts) -> RunResult {
                     w.lifetime += 1;
                     continue;
                 }
-                if probe_phase {
+                if probe_phase || w.same_process_probes > 0 {
                     crate::probe::judge(&mut w);
                 }
                 break;
@@ -798,10 +806,7 @@ async fn lifetime(shared: Shared, local_pk: secp256k1::PublicKey, rng: &mut Rng,
             monitors::after_window(&mut w, tr);
             w.window_calls.clear();
             if script.is_none() && !w.violations.is_empty() {
-                let stop = match &w.target {
-                    Some(t) => w.violations.iter().any(|v| v.property == t.as_str()) || w.violations.len() >= 16,
-                    None => true,
-                };
+                let stop = w.target_violated() || w.violations.len() >= 24;
                 if stop {
                     return End::Done;
                 }
@@ -856,6 +861,20 @@ async fn lifetime(shared: Shared, local_pk: secp256k1::PublicKey, rng: &mut Rng,
                         w.inconclusive.push("plugin never came up".into());
                     }
                     let _ = probe_phase;
+                    // C09, same-process mode: probe without restarting (an in-memory wedge left
+                    // by a failed write lasts for the life of the process)
+                    if mgr.is_some() && w.cfg.probe && w.cfg.probe_same_process && w.same_process_probes < 3 && !w.target_violated() && !w.inconclusive.iter().any(|x| x == "step cap reached") {
+                        if let Some(a) = w.cfg.probe_age_secs {
+                            w.age_pending_records(a);
+                        }
+                        let round = w.same_process_probes;
+                        w.same_process_probes += 1;
+                        let done = crate::probe::add_probe(&mut w, round);
+                        if !done {
+                            idle_advanced_ms = 0;
+                            continue;
+                        }
+                    }
                     return End::Done;
                 }
                 // jump in poll-interval sized steps; larger ones when the MPP timeout is long
